@@ -7,14 +7,15 @@ Import ListNotations.
    the walker performs is a lookup in the operator / comparison / function
    tables (or the built-in not / list / tuple construction) ... *)
 Theorem c01_trace_confined :
-  forall T O e, Forall (fun p => prim_ok T [] p = true) (fst (snd (run_eval T O e))).
+  forall T O e, Forall (fun p => prim_ok T (fun _ => false) p = true) (fst (snd (run_eval T O e))).
 Proof. exact trace_confined_proof. Qed.
 Print Assumptions c01_trace_confined.
 
-(* ... the tool pathway additionally only invokes registered tools ... *)
+(* ... the tool pathway additionally only invokes the tool registered under
+   the called name, and only if it passes the capability check ... *)
 Theorem c01_tool_pathway_confined :
   forall T O reg allowed e,
-    Forall (fun p => prim_ok T (map tl_name reg) p = true)
+    Forall (fun p => prim_ok T (tool_allowed reg allowed) p = true)
            (fst (snd (tool_pathway T O reg allowed e ([], 0%nat)))).
 Proof. exact tool_pathway_confined_proof. Qed.
 Print Assumptions c01_tool_pathway_confined.
@@ -40,7 +41,7 @@ Print Assumptions Gen_C01_ok.
 (* hence, for the tables of the current source, every primitive performed is
    one of the property text's allow-list *)
 Theorem c01_confined_to_property_allow_list :
-  forall O e, Forall (fun p => prim_ok spec_tables [] p = true)
+  forall O e, Forall (fun p => prim_ok spec_tables (fun _ => false) p = true)
                      (fst (snd (run_eval gen_tables O e))).
 Proof.
   intros O e. eapply Forall_impl; [|apply c01_trace_confined].
